@@ -16,6 +16,11 @@ call form (keyword omitted = default, keyword, positional), and `rep`: the same 
 voltage.fk does with the frequency scale and the taper, voltage.agc with the convolution) and after a call with other
 arguments of the same shape. Arguments are compared with the copies afterwards. Fields missing in old corpus cases default
 to the original behaviour (C-contiguous float64, lists, one call).
+
+About 2.5 % of the sampled cases are of real-data scale (`scale` field, labels scale_*): one trace of 2^16 .. 2^21 + 2^16 samples
+(half-spectrum functions: up to 2^22 + 2^16), one sub-function per case, lengths and positions on / next to multiples of powers
+of two and ten; see "real-data scale" below. They are ordinary conv / spec / cos cases with optional fields (`sparse`, `only`;
+`ops`, `ck`, `ks`, `xk`, `xpos`, `filt`; `i0`, `i1`) that select one section of the runner and an O(n) / one-FFT oracle.
 """
 import bisect
 import math
@@ -54,7 +59,21 @@ RULE = ("Case types: conv (nsx, nsw, x = identity/impulse basis | vector | matri
         "np.float64/non-integer float), call form (option omitted, keyword, positional; _freq_filter and _freq_vector "
         "with every spelling of typ and its default), and rep = 0/1/2: second call with the same argument objects (1), "
         "additionally after the first results were overwritten in place by the caller and after a call with other "
-        "arguments of the same shape (2). Arguments must compare equal to copies made before the first call.")
+        "arguments of the same shape (2). Arguments must compare equal to copies made before the first call. "
+        "Real-data scale (1 in 41 sampled cases, labels scale_*): one long trace, one sub-function per case; lengths 2^16 .. "
+        "2^21 + 2^16 (fscale / freduce / fexpand: .. 2^22 + 2^16, so that n//2+1 bins cross the same seams) = 2^k, 3 2^19, 10^5, "
+        "5 10^5, 10^6, 1.5 10^6, 2 10^6 (+ -2 .. +3), +-3000 around them, primes / twice primes next to them, log-uniform, "
+        "uniform; positions (taps of the sparse operand, impulses of the filtered trace, requested DFT coefficients, filter "
+        "corners as DFT bins, first / last sample of the cosine taper) on and within 2 of multiples of 2^10 .. 2^20 and 10^3 .. "
+        "10^6, at the ends and the middle, uniform. conv: signal (or kernel, or both) long, one operand = 1-6 integer taps "
+        "(oracle by construction: sum of shifted copies of the dense operand) or kernel <= 48 taps (numpy.convolve), one mode "
+        "per case; spec: exactly one of fscale + _freq_vector (every bin against k/(n si) and the taper), freduce / fexpand "
+        "(bit-exact on a constructed Hermitian spectrum), dft (1-3 coefficients against numpy fft), lp | hp | bp against "
+        "irfft(rfft(x) x taper response at k/(n si)) - the textbook filter by numpy's real FFT - or lp + hp == x; cos: n sorted "
+        "samples built so that samples i0 / i1 are the bounds exactly. Same tolerances as the small cases (filter reference: "
+        "RESP_TOL carried to the time domain by Parseval + FILT_TOL_EPS eps, relative to |x|_2). Lengths whose FFT is slow "
+        "(sum of prime factors > 120) are, for filt / dft beyond 2^19 + 2^16, halved (1 in 4) or moved to the next 7-smooth "
+        "length. Non-trivial (scale): longer than 2^16 samples.")
 EXHAUSTIVE_NOTE = ("finite boxes enumerated completely: (nsx, nsw) pairs as listed in the rule (thorough: all of 1..300^2) x "
                    "{impulse basis, random vector} x {full, same}; n = 1..300 x ndim 1..3 x axis x axis-sign; "
                    "ns_optim_fft on 1..5000 (thorough 1..200000) and around every 2^a3^b <= 2^24; dft2 grids <= 12x12 "
@@ -77,6 +96,9 @@ ASSUMPTIONS = [
     "or float lengths for fscale, complex signals for convolve, lists as xscale/kscale/r/c, unsigned samples for "
     "fcn_cosine with a negative lower bound (numpy refuses the subtraction)",
     "float32 signals are held to float32 tolerances (numpy's FFT keeps single precision), integer signals to float64",
+    "real-data scale cases: lp / hp / bp of a long trace equal numpy.fft.irfft(numpy.fft.rfft(x) * R) with R the (1 -) cosine "
+    "taper (product of the two for bp) evaluated at the bin frequencies k / (n si) - the same statement as the frequency-"
+    "response test of the impulse basis, for one trace; max|y - ref| <= (RESP_TOL + 64 eps) |x|_2",
 ]
 BUDGET = {"quick": 10000, "thorough": 240000}
 SHRINK = {"quick": True, "thorough": True}
@@ -582,12 +604,16 @@ def _scale_len(draw, lo=SCALE_MIN, hi=SCALE_MAX):
 
 
 @st.composite
-def _scale_pos(draw, n):
-    """a position 0 <= p < n: on / next to a multiple of a power of two or ten, at the ends, or anywhere"""
+def _scale_pos(draw, n, reach=0):
+    """a position 0 <= p < n: on / next to a multiple of a power of two or ten, at the ends, or anywhere. reach: length of what
+    is attached to the position (the kernel laid down at a tap of the signal): the position is then also placed so that this
+    stretch ends on / straddles the multiple"""
     c = _pick(draw, ["seam"] * 6 + ["end"] + ["any"] * 3)
     if c == "seam":
         s = _pick(draw, [v for v in _SCALE_SEAMS if v <= n] or [1])
         p = s * _uniform(draw, 1, max(1, n // s)) + _pick(draw, [-2, -1, -1, 0, 0, 1, 1, 2])
+        if reach > 2 and _pick(draw, [True, False]):
+            p -= _pick(draw, [reach - 1, reach, reach + 1, reach // 2, _uniform(draw, 0, reach)])
     elif c == "end":
         p = _pick(draw, [0, 1, n - 2, n - 1, n // 2, n // 2 - 1, n // 2 + 1])
     else:
@@ -597,7 +623,7 @@ def _scale_pos(draw, n):
 
 @st.composite
 def _scale_conv(draw, tier):
-    op = _pick(draw, ["sparse_w", "sparse_w", "sparse_x", "sparse_x", "short"])
+    op = _pick(draw, ["sparse_w", "sparse_w", "sparse_w", "sparse_x", "sparse_x", "short", "short"])
     total = draw(_scale_len())          # nsx + nsw (the padded size follows from the sum)
     if op == "short":
         nsw = _uniform(draw, 1, 48)
@@ -623,7 +649,7 @@ def _scale_conv(draw, tier):
             "only": _pick(draw, ["full", "same", "same"]), "scale": "conv_" + op}
     if op != "short":
         m = nsw if op == "sparse_w" else nsx
-        pos = sorted({draw(_scale_pos(m)) for _ in range(_pick(draw, [1, 2, 3, 4, 5, 6]))})
+        pos = sorted({draw(_scale_pos(m, reach=0 if op == "sparse_w" else nsw)) for _ in range(_pick(draw, [1, 2, 3, 4, 5, 6]))})
         case["sparse"] = {"on": op[-1], "pos": pos, "amp": [_pick(draw, [1, 1, -1, 2, 3, -5, 7]) for _ in pos]}
     return case
 
